@@ -4,6 +4,7 @@
 export GOFLAGS=-mod=mod GOPROXY=off GOSUMDB=off GOTOOLCHAIN=local
 for d in /verif/seeded/*/; do
   n=$(basename $d); [ -f $d/patch.diff ] || continue
+  [ -n "${FILTER:-}" ] && ! [[ $n =~ $FILTER ]] && continue   # FILTER=<regex on the change's name>
   prop=$(python3 -c "import json;m=json.load(open('$d/meta.json'));print(m.get('check_with',m['breaks_property']))")
   if python3 -c "import json,sys;sys.exit(0 if json.load(open('$d/meta.json')).get('obsolete') else 1)"; then echo "$n $prop OBSOLETE (no longer breaks the property, see meta.json)"; continue; fi
   wt=/tmp/sa_wt_$$; git -C /repo worktree add -q $wt HEAD || exit 3
